@@ -56,6 +56,10 @@ def install_backend_seam():
         _state["calls"].append(solver)
         if _state["mode"] == "glpk_error" and solver == cp.CBC:
             raise cp.SolverError("injected by the harness: CBC unusable")
+        if solver == cp.CBC:
+            _state["cbc_count"] = _state.get("cbc_count", 0) + 1
+            if _state["cbc_count"] in _state.get("fail_at", ()):
+                raise cp.SolverError(f"injected by the harness: CBC call #{_state['cbc_count']} fails")
         return orig(self, *a, **kw)
 
     cp.Problem.solve = solve
@@ -286,3 +290,14 @@ def expected_solver(backend):
     if backend == "glpk_error" and cbc_available():
         return [cp.CBC, cp.GLPK_MI]
     return [cp.GLPK_MI]
+
+
+def set_fault_plan(fail_at):
+    """Fault enumeration: the CBC calls whose ordinal (1-based, since this call) is in fail_at raise SolverError."""
+    install_backend_seam()
+    _state["cbc_count"] = 0
+    _state["fail_at"] = tuple(fail_at)
+
+
+def cbc_calls_seen():
+    return _state.get("cbc_count", 0)
